@@ -3,7 +3,8 @@ import vlib, rel
 
 CFGS = [{"partitions": 1}, {"partitions": 3, "batch_size": 2, "_chunk": 2, "threads": 4},
         {"partitions": 2, "optimizer": False}, {"partitions": 8, "threads": 8},
-        {"partitions": 2, "hash_joins": False}]
+        {"partitions": 2, "hash_joins": False}, {"partitions": 2, "_style": {"materialized_cte": True}},
+        {"partitions": 1, "_style": {"materialized_cte": True}}]
 
 
 def run(tier):
@@ -12,7 +13,7 @@ def run(tier):
         dbs_fn=lambda tables, rng: rel.pick_dbs(tables, rng, 10 if tier == "quick" else 60),
         cfgs_fn=lambda rng: CFGS,
         rule=("GenSubquery.tla queries (scalar / EXISTS / IN / ANY / ALL x correlation through filter, projection, "
-              "aggregate argument, DISTINCT, two nesting levels; lateral joins; CTEs referenced 0-3 times vs. inlined, "
+              "aggregate argument, DISTINCT, two nesting levels; lateral joins; CTEs (plain and AS MATERIALIZED) referenced 0-3 times vs. inlined, with filters differing per reference, "
               "nested and nondeterministic CTE bodies) x databases with NULL / duplicate outer values and empty inner "
               "tables x optimizer / join-algorithm / partition configurations; the oracle is nested evaluation "
               "(Algebra.tla EvalE with the outer row in env); non-trivial = non-empty result"))
